@@ -26,6 +26,7 @@ type SessResult struct {
 
 type Delivery struct {
 	Chunk   int            // >0: client delivers each request in pieces of this many bytes, waiting for quiescence in between
+	Pieces  []int          // non-empty: each request is delivered in pieces of these sizes (the rest in one last piece), waiting for quiescence in between
 	MaxRead int            // >0: server-side socket reads return at most this many bytes
 	Before  map[int]func() `json:"-"` // harness actions executed before request i is sent (e.g. replace a file on disk)
 	Prelude func(s *Sess)  `json:"-"` // runs on the fresh server before the judged connection is made (e.g. another client's aborted transfer)
@@ -60,7 +61,23 @@ func runSession(t *testing.T, o SrvOpts, m *Model, reqs []Req, d Delivery) *Sess
 			b := rq.Encode()
 			var resp []byte
 			var closed bool
-			if d.Chunk > 0 {
+			if len(d.Pieces) > 0 {
+				p := 0
+				for _, n := range d.Pieces {
+					if p >= len(b) {
+						break
+					}
+					e := min(p+n, len(b))
+					c.Send(b[p:e])
+					synctest.Wait()
+					p = e
+				}
+				if p < len(b) {
+					c.Send(b[p:])
+					synctest.Wait()
+				}
+				resp, closed = c.Take(), c.ServerClosed()
+			} else if d.Chunk > 0 {
 				for p := 0; p < len(b); p += d.Chunk {
 					e := p + d.Chunk
 					if e > len(b) {
@@ -162,4 +179,4 @@ func reqStrings(reqs []Req) []string {
 	return out
 }
 
-func (d Delivery) plain() bool { return d.Chunk == 0 && d.MaxRead == 0 && d.Before == nil && d.Prelude == nil && d.StallT == 0 }
+func (d Delivery) plain() bool { return d.Chunk == 0 && len(d.Pieces) == 0 && d.MaxRead == 0 && d.Before == nil && d.Prelude == nil && d.StallT == 0 }
